@@ -1,7 +1,7 @@
 """C03 — optimize() terminates within the evaluation budget and counts honestly."""
-from harness import budget as B, comp_loop as L, runlevel as R, skel as S
+from harness import budget as B, comp_final as F, comp_loop as L, runlevel as R, skel as S
 
-PROPS = ["Props/C03.v", "Props/C03budget.v", "Props/C13hist.v", "Props/C13loop.v"]
+PROPS = ["Props/C03.v", "Props/C03budget.v", "Props/C13hist.v", "Props/C13loop.v", "Props/C05final.v"]
 THEOREMS = ["C03_terminates", "C03_budget", "C03_maxiter", "C03_func_count_exact", "C03_msg_truthful", "C03_finished_is_final",
             "C03_budget_model_is_source", "C03_skeleton_reads_the_budget", "C03_total_calls_within_user_budget", "C03_reserve_exact",
             "C03_det_reserves_nothing", "C03_noise_level_rule", "C03_design_size_bounds", "C03_budget_sufficient_det",
@@ -9,8 +9,10 @@ THEOREMS = ["C03_terminates", "C03_budget", "C03_maxiter", "C03_func_count_exact
             "C03_design_exceeds_budget_refuted", "C03_negative_nfs_exceeds_budget_refuted", "C03_budget_message_unspent_reserve_refuted",
             "C03_stall_message_in_history_terms",
             # Props/C13loop.v: the termination tests / the whole loop iteration of Model/Skeleton.v equal gen/Src_loop.v (regenerated from optimize())
-            "C03_termination_is_source", "C03_loop_iteration_is_source", "C13_poll_loop_is_source"]
-TRANSLATORS = ["budget", "loop"]
+            "C03_termination_is_source", "C03_loop_iteration_is_source", "C13_poll_loop_is_source",
+            # Props/C05final.v: the number of logger calls AFTER the loop, read from gen/Src_final.v (regenerated from the tail of optimize())
+            "C03_final_calls_bounded_is_source", "C05_final_samples_not_recorded"]
+TRANSLATORS = ["budget", "loop", "final"]
 LEVEL = "proof"
 RULE = ("real BADS runs over a panel (D 1-4; deterministic/auto/declared/specified noise; boxes sym/tight/log/unbounded/mixed; "
         "constraints; budgets from the design size up; max_iter 1-5; tol_mesh large; complete_poll; accelerate_mesh) recorded at the seams "
@@ -29,6 +31,8 @@ TRUSTED = ["Coq 8.16.1 kernel + vm_compute", "hand-written model Model/Skeleton.
            "the log2 expression evaluated by NumPy against Z.log2_up on -3..3000 and 2^k-1,2^k,2^k+1 up to 2^48+1)",
            "SciPy Sobol.random_base2(m) returns 2^m rows; contraints_check only removes rows (its output size is an oracle input, 0 <= survivors <= rows is checked on every recorded call)",
            "translate/loop.py regenerates the decision logic of optimize() / _search_step_ / _poll_step_ on every run (gen/Src_loop.v; fail-closed ast whitelist, writer and call-site census over the package); validated each run: the generated definitions evaluated by Coq on every recorded loop iteration of this panel (harness/comp_loop.py)",
+           "translate/final.py regenerates the tail of optimize() on every run (gen/Src_final.v; fail-closed: exactly one logger call site after the loop, inside `for i in range(<count>)` under the two generated guards); "
+           "validated each run: the generated call count evaluated by Coq on every recorded end-game of this panel (harness/comp_final.py)",
            "the component tie stubs pybads.bads.bads.init_and_train_gp from outside (the GP trainer does not touch the budget; the run-level tie uses the unstubbed code)"]
 ASSUMPTIONS = ["max_iter >= 1; options are integer valued where the code compares them with ==; the target and the GP engine return",
                "the capped fun_eval_start is at most 2^48 (int(np.ceil(np.log2(x))) = Z.log2_up x fails from x = 2^49+1 on: binary64 log2 rounds down; a design of that size cannot be evaluated)",
@@ -118,6 +122,8 @@ def tie(ctx, broken):
     R.apply_monitor(ctx, out, R.mon_c03_unspent)          # open known finding, reported separately so that it hides nothing
     L.tie_loop(ctx, broken, out, "c03")                 # gen/Src_loop.v on every recorded iteration (translator validation)
     L.apply_mon_loop(ctx, out, broken)
+    F.tie_final(ctx, broken, out, "c03")                # gen/Src_final.v on every recorded end-game (translator validation)
+    F.apply_mon_final(ctx, out, broken)
     B.run_level_tie(ctx, broken, out, "c03")
     witnesses(ctx, broken, out)
     B.component_tie(ctx, broken, 300 if ctx.quick else 3000)
@@ -125,6 +131,8 @@ def tie(ctx, broken):
 
 def search(ctx, broken):
     if L.search_loop(ctx, broken, [R.mon_c03, R.mon_c13]):
+        return True
+    if F.search_final(ctx, broken, [R.mon_c03]):
         return True
     if R.truncate_search(ctx, R.mon_c03):
         return True
@@ -144,4 +152,4 @@ def replay(ctx, rp):
     r = rp["replay"]
     if r.get("kind") == "init":
         return B.replay_init(r["spec"])
-    return R.generic_replay(ctx, rp, [R.mon_c03, R.mon_c03_unspent, L.mon_loop_property("C03")])
+    return R.generic_replay(ctx, rp, [R.mon_c03, R.mon_c03_unspent, L.mon_loop_property("C03"), F.mon_final_property("C03")])
